@@ -1,7 +1,8 @@
 #!/bin/sh
 # C19, memory-safety sentence (validation, not proof): run the `buffer` harness domain — the same
 # runner, generator and property oracle as the native harness — and samples of the request files of
-# the byte-level domains that write through the buffer layer (`packer`, `huffman`, `packet6`) under
+# the other checks' domains that are pure Rust (`packer`, `huffman`, `packet6`, `packet7`, `snap`,
+# `teehist`, `demo`, `datafile`; see tools/c19_miri_select.py for what is left out and why) under
 # Miri, comparing every output line with the Lean model's.
 #
 #   tools/c19_miri.sh [seed]     (VERIF_REPO selects the repository, default /repo; seed default
@@ -10,8 +11,8 @@
 # Needs the native harness and the driver (built by any `./check`), and `cargo +nightly miri`.
 # Prints one line `MIRI-VERDICT …`, writes evidence/C19-miri.json, and exits non-zero iff Miri
 # (Tree Borrows) reports undefined behaviour, or an output line differs from the model's, or a
-# property oracle fails, or a run does not finish.  Wall time about 10–15 min (the four runs are
-# parallel; the `buffer` one dominates).
+# property oracle fails, or a run does not finish.  Wall time about 10–12 min on a quiet machine (the
+# nine runs are parallel; the `buffer` one dominates).
 set -u
 cd "$(dirname "$0")/.."
 REPO=${VERIF_REPO:-/repo}
@@ -22,16 +23,19 @@ mkdir -p run
 H=harness/target/debug/tw-harness
 D=lean/.lake/build/bin/twdrv
 if [ ! -x "$H" ] || [ ! -x "$D" ]; then echo "MIRI-VERDICT not run: build first (./check C19 quick)"; exit 2; fi
-DOMS="buffer packer huffman packet6"
+OTHERS="packer huffman packet6 packet7 snap teehist demo datafile"
+DOMS="buffer $OTHERS"
 $H gen buffer miri "$SEED" > run/miri.buffer.req || exit 2
-for d in packer huffman packet6; do
-  $H gen $d quick "$SEED" | python3 tools/c19_miri_select.py $d 20 > run/miri.$d.req || exit 2
+for d in $OTHERS; do
+  $H gen $d quick "$SEED" | python3 tools/c19_miri_select.py $d $D > run/miri.$d.req || exit 2
 done
 for d in $DOMS; do
   $D $d < run/miri.$d.req > run/miri.$d.model || exit 2
 done
 sed "s#@REPO@#$REPO#" harness-miri/Cargo.toml.in > harness-miri/Cargo.toml
-sed "s#@REPO@#$REPO#" harness-miri/stub-huffman-reference/Cargo.toml.in > harness-miri/stub-huffman-reference/Cargo.toml
+for st in stub-huffman-reference stub-snapshot-reference; do
+  sed "s#@REPO@#$REPO#" harness-miri/$st/Cargo.toml.in > harness-miri/$st/Cargo.toml
+done
 cp "$REPO/Cargo.lock" harness-miri/Cargo.lock
 cd harness-miri
 T0=$(date +%s)
@@ -53,7 +57,15 @@ cd ..
 python3 - "$SEED" "$REPO" "$((T1 - T0))" "$SB_RC" "$SBTB_RC" <<'PY'
 import json, re, sys
 seed, repo, secs, sb_rc, sbtb_rc = sys.argv[1:]
-doms = ["buffer", "packer", "huffman", "packet6"]
+doms = ["buffer", "packer", "huffman", "packet6", "packet7", "snap", "teehist", "demo", "datafile"]
+NOT_COVERED = {
+    "huffman": "operations that print the C++ reference's answer (rd, rc) and the hash sweeps; the reference itself is a stand-in",
+    "snap": "pair/sweep (they consult the C++ snapshot reference through FFI)",
+    "teehist": "`file` with a fragmentation other than whole (socket pair + writer thread: Miri reports the blocking read as a deadlock), bulk forms sweep/all2",
+    "datafile": "every input that reaches read_data (zlib uncompress is C behind FFI): only files rejected by Reader::new are run; inflate/rt/openx/sweeps not run",
+    "demo": "first sessions only; sweep/mutall not run",
+    "buffer": "hash-form sweeps, capacities above 4",
+}
 runs, bad = {}, []
 for d in doms:
     try:
@@ -68,6 +80,16 @@ for d in doms:
     for k, v in kv.items():
         r[k] = int(v) if v.isdigit() else v
     r["first_diffs"] = re.findall(r"^(?:DIFF|FAIL) .*$", log, re.M)[:3]
+    try:
+        ops = {}
+        for l in open("run/miri.%s.req" % d):
+            if l.strip():
+                ops[l.split()[0]] = ops.get(l.split()[0], 0) + 1
+        r["operations"] = ops
+    except FileNotFoundError:
+        pass
+    if d in NOT_COVERED:
+        r["not_covered"] = NOT_COVERED[d]
     runs[d] = r
     if r["undefined_behavior_reports"] or not r["finished"] or r["exit"] != 0:
         bad.append(d)
@@ -78,7 +100,8 @@ except FileNotFoundError:
 sbm = re.search(r"Undefined Behavior: [^\n]*", sb)
 ev = {
     "property_id": "C19", "part": "memory-safety sentence (validation only)", "seed": int(seed), "repo": repo,
-    "tool": "cargo +nightly miri run (harness-miri: harness/src/d_{buffer,packer,huffman,packet6}.rs + the repository crates; the C++ huffman reference is replaced by a stand-in)",
+    "tool": "cargo +nightly miri run (harness-miri: harness/src/d_{buffer,packer,huffman,packet6,packet7,snap,teehist,demo,datafile}.rs + the repository crates; the C++ huffman and snapshot references are replaced by stand-ins)",
+    "domains_not_runnable_under_miri": "map (reads datafiles: zlib FFI), and every operation listed under not_covered; the connection/net/recv/snapmgr/gamenet/browse domains are pure Rust but are not sampled here (time)",
     "flags": "-Zmiri-disable-isolation -Zmiri-tree-borrows", "wall_s": int(secs), "tree_borrows_runs": runs,
     "stacked_borrows_minimal_client": {"bin": "harness-miri/src/bin/sb_repro.rs", "exit": int(sb_rc),
                                        "first_report": sbm.group(0) if sbm else None,
